@@ -415,6 +415,11 @@ def ownreplay(tier, seed, runner, lines):
         viol.append(('own', ['# own_replay'], 'own\nthe replay harness does not know an operation the model generated:\n' + '\n'.join(l for l in p.stdout.split('\n') if 'UNKNOWN' in l)[:1000], False))
     if n_ops < 1000 and not (lines and lines[0] == 'RESET'):
         viol.append(('own', ['# owngen'], 'own\nonly %d operations were generated' % n_ops, False))
+    mh = re.search(r'hidden-only=(\d+)', p.stdout)
+    if mh and int(mh.group(1)) > 0:
+        cov['states_differing_only_in_the_cached_sorted_flag'] = int(mh.group(1))
+        first_h = p.stdout.split('HIDDEN-MISMATCH after ')[1].split('\n')[0] if 'HIDDEN-MISMATCH after ' in p.stdout else ''
+        viol.append(('own', ['# own_replay'], 'own\nin %s states the cached sorted flag of a params object differs from the model while the pointer graph, the lists and the serializations agree: the correspondence of that hidden flag no longer checks (first: %s)\n%s' % (mh.group(1), first_h[:300], p.stdout[:1500]), False))
     if (m and int(m.group(2)) > 0) or p.returncode != 0 or not m:
         # the first mismatch with its history (from the last RESET)
         first = p.stdout.split('MISMATCH after ')[1].split('\n')[0] if 'MISMATCH after ' in p.stdout else None
